@@ -169,6 +169,28 @@ def gen_multi(seed_i, mode, tier):
         scn["actors"] = pair + scn["actors"][:1]
         scn["de43_pair"] = True
         n = len(scn["actors"])
+    elif kn.random() < 0.08:
+        # codec twins: the SAME file bytes read by two readers that differ only in the codec of the same
+        # family (cp500 / cp037 / cp1140 ...): equal raw bytes decode to different text for a few characters
+        sub = Streams(sub_seed(seed_i, "twins"))
+        wl = sub["workload"]
+        ea, eb = sub["knobs"].choice([("cp500", "cp037"), ("cp037", "cp500"), ("cp500", "cp1140"), ("latin_1", "cp1252" if False else "iso8859_15")])
+        cfgp = msgcodec.packaged_bit_config()
+        special = "!|[]^~{}\\$#@" + "ABC123 "
+        msgs = []
+        for _ in range(wl.randint(2, 5)):
+            m = {"MTI": "1240", "DE2": "".join(wl.choice("0123456789") for _ in range(16)),
+                 "DE42": "".join(wl.choice(special) for _ in range(15)),
+                 "DE41": "".join(wl.choice(special) for _ in range(8)),
+                 "DE72": "".join(wl.choice(special) for _ in range(wl.randint(1, 60)))}
+            msgs.append(m)
+        blocked = kn.random() < 0.5
+        w = {"role": "writer", "cls": "IpmWriter", "blocked": blocked, "encoding": ea, "config": "packaged", "messages": msgs}
+        twins = [{"role": "reader", "cls": "IpmReader", "blocked": blocked, "encoding": e, "config": "packaged",
+                  "image_from": w, "faults": [{"kind": "extend", "hex": ""}]} for e in (ea, eb)]
+        scn["actors"] = twins + scn["actors"][:1]
+        scn["codec_twins"] = True
+        n = len(scn["actors"])
     sc = st["schedule"]
     if mode == "op":
         # number of ops per actor is known from the specs (writers: items + close; readers: records + 1)
@@ -332,6 +354,8 @@ def run_task(task):
                 c["probe:run_with_a_reader_on_a_faulted_image"] += 1
             if scn.get("share_config"):
                 c["probe:run_with_instances_sharing_one_config_object"] += 1
+            if scn.get("codec_twins"):
+                c["probe:run_with_two_readers_of_the_same_bytes_under_sibling_codecs"] += 1
             if scn.get("de43_pair"):
                 c["probe:run_with_two_readers_differing_only_in_the_DE43_regex"] += 1
             if any(a.get("write_many") for a in scn["actors"]):
